@@ -202,7 +202,7 @@ func main() {
 		"mostly well timed, some with late records or watermarks going backwards) through the real EventTimeBuffer alone, through single Filter/Map/Unnest/tumble/max_diff_watermark nodes and " +
 		"through pipelines of 2..3 of them; poll over a source failing after 1..3 rounds, alone and followed by per-record nodes; " +
 		"non-trivial = well-timed source, at least one watermark and three records in the output; distinct by full case text"
-	n := f.Cases(450, 4500)
+	n := f.Cases(330, 3300)
 	for i := 0; i < n; i++ {
 		r := rng.Fork()
 		shape := r.Intn(10)
@@ -349,6 +349,12 @@ func main() {
 		} else {
 			cf.Count("source_script_ill_timed")
 		}
+	}
+	for i, m := 0, f.Cases(160, 1600); i < m; i++ {
+		joinCase(rng.Fork(), cf)
+	}
+	for i, m := 0, f.Cases(110, 1100); i < m; i++ {
+		groupByCase(rng.Fork(), cf)
 	}
 	if err := cf.Write(f.Out); err != nil {
 		fmt.Fprintln(os.Stderr, err)
